@@ -784,6 +784,24 @@ func runC14(c C14Case, cs *kit.CaseStats) error {
 			if len(seenAnc) != len(anc) {
 				return fmt.Errorf("%s: %d of the %d pooled ancestors are missing from the set", where, len(anc)-len(seenAnc), len(anc))
 			}
+			// the returned set is the caller's: scribbling over it leaves the pool alone
+			snapSet := encV2s(node.CM.V2PoolTransactions())
+			for i := range got {
+				mutateV2(&got[i], oi)
+			}
+			if !sameEnc(snapSet, encV2s(node.CM.V2PoolTransactions())) {
+				return fmt.Errorf("%s: mutating the transactions returned by V2TransactionSet changed the pool", where)
+			}
+			for i := range sur2 {
+				if anc[i] {
+					if pt, ok := node.CM.V2PoolTransaction(sur2[i].ID()); !ok || pt.ID() != sur2[i].ID() {
+						return fmt.Errorf("%s: after mutating the returned set, pooled ancestor %v can no longer be found by id", where, sur2[i].ID())
+					}
+				}
+			}
+			if len(anc) > 0 {
+				cs.Class("mutated-returned-broadcast-set-with-ancestors")
+			}
 
 		case "staleforkset":
 			// block b1 on the tip confirms a payment; a set is built with basis b1:
